@@ -59,9 +59,16 @@ def upd (m : FMap) (b : Nat) (v : Bytes) : FMap := fun c => if c = b then some v
 /-- the map after a chronological list of writes -/
 def lastWrite (m0 : FMap) (ws : List (Nat × Bytes)) : FMap := ws.foldl (fun m w => upd m w.1 w.2) m0
 
+/-- the set fields among the `n` bits from `b` on, in bit order -/
+def fieldsFrom (m : FMap) : Nat → Nat → List (Nat × Bytes)
+  | 0, _ => []
+  | n + 1, b =>
+    match m b with
+    | some v => (b, v) :: fieldsFrom m n (b + 1)
+    | none => fieldsFrom m n (b + 1)
+
 /-- the set fields in bit order -/
-def fieldList (M : Meta) (m : FMap) : List (Nat × Bytes) :=
-  (List.range M.max).filterMap (fun b => (m b).map (fun v => (b, v)))
+def fieldList (M : Meta) (m : FMap) : List (Nat × Bytes) := fieldsFrom m M.max 0
 
 /-- zero bytes needed at offset `off` to reach a multiple of `a` -/
 def padTo (a off : Nat) : Nat := (a - off % a) % a
